@@ -884,6 +884,30 @@ def ratio_rejection(repo: Repo) -> RuleRun:
                     fn.node,
                     key=f"{ratio}:{bad:g}",
                 )
+    # the same for the two cell sizes: a first / last cell of zero or negative size cannot be realised; each of the two is refused by
+    # every relation that takes it (the relations for the two ends are siblings: what one validates, the other validates)
+    for fn in relation_functions(repo):
+        for size in ("start_size", "end_size"):
+            if size not in fn.params:
+                continue
+            for bad in (0.0, -0.1, -2.0):
+                args = [bad if p == size else ORDINARY[p] for p in fn.params]
+                try:
+                    kind, out = run(fn, args)
+                except AnalysisError:
+                    if bad == 0.0:
+                        continue  # a size of exactly zero under a root finder: division by zero inside the residual - a raise in the real run
+                    raise
+                n += 1
+                r.check(
+                    kind == "raises",
+                    fn,
+                    f"{size} = {bad:g} rejected",
+                    f"{fn.name}({', '.join(f'{p}={a:g}' for p, a in zip(fn.params, args))}) returns {out!r} instead of raising: a {size.replace('_', ' ')} of {bad:g} cannot be realised, "
+                    "yet Chop(...).calculate() hands out a grading - Chop(end_size=-2).calculate(1) gives (1, 1)",
+                    fn.node,
+                    key=f"{size}:{bad:g}",
+                )
     # a total and a cell-to-cell expansion that point in opposite directions (cells growing along the edge, the last one smaller than
     # the first) cannot be realised either: the logarithm quotient is negative, which truncation towards zero would turn into count 1
     both = [f_ for f_ in relation_functions(repo) if {"total_expansion", "c2c_expansion"} <= set(f_.params)]
